@@ -25,6 +25,9 @@ enum Case {
     TwoBad { cid: Cid, n: usize },
     /// a very long string (block sizes, thresholds): one valid pattern, a bad byte at chosen positions, two bad bytes
     Huge { cid: Cid, n: usize },
+    /// two codecs used one after the other on the same thread (anything cached between calls per thread or
+    /// per process, keyed by too little, shows here): a, b, a, b, every entry point and every text form
+    Interleave { a: Cid, b: Cid },
 }
 
 /// Rejected bytes chosen around the table edges (anything accepted by the codec is removed).
@@ -106,10 +109,36 @@ fn gen(t: Tier, _seed: u64, emit: &mut dyn FnMut(Case)) {
             emit(Case::Huge { cid, n });
         }
     }
+    for a in Cid::WITH_CUSTOM {
+        for b in Cid::WITH_CUSTOM {
+            emit(Case::Interleave { a, b });
+        }
+    }
+}
+
+/// every symbol of the codec in table order, then the first three again, cut to `n`
+fn sample_text(cid: Cid, n: usize) -> Vec<u8> {
+    let sp = spec::spec(cid);
+    (0..n).map(|i| sp.syms[i % sp.syms.len()].ch).collect()
+}
+
+fn run_text<A: Sx>(text: &[u8], out: &mut Out) {
+    let sp = spec::spec(A::CID);
+    one::<A>(&sp, text, out);
 }
 
 fn run(c: &Case, out: &mut Out) {
     match c {
+        Case::Interleave { a, b } => {
+            for n in [1usize, 5, 40] {
+                let (ta, tb) = (sample_text(*a, n), sample_text(*b, n + 1));
+                for _ in 0..2 {
+                    dispatch!(*a, run_text(&ta, out));
+                    dispatch!(*b, run_text(&tb, out));
+                }
+            }
+            out.observe(&(a, b));
+        }
         Case::Pairs { cid, .. } | Case::Short { cid, .. } | Case::Valid { cid, .. } | Case::OneBad { cid, .. } | Case::TwoBad { cid, .. } | Case::Huge { cid, .. } => {
             dispatch!(*cid, run_g(c, out))
         }
@@ -146,6 +175,7 @@ fn run_g<A: Sx>(c: &Case, out: &mut Out) {
                 one::<A>(&sp, &v, out);
             });
         }
+        Case::Interleave { .. } => unreachable!(),
         Case::Huge { n, .. } => {
             let n = *n;
             let acc = sp.accepted();
